@@ -28,6 +28,8 @@ def run(ctx):
     ctx.guard(pair_and_kinds, ctx, am)
     ctx.guard(delete_rule, ctx)
     ctx.guard(ref_rule, ctx, am)
+    from . import linkedset
+    ctx.guard(linkedset.check, ctx, 'C02-PARTNERS')
     ctx.assume('induction hypothesis for C02-ATOMIC/unrelate: the two directed links mirror each other '
                'before the call (established by C02-PAIR + C02-ATOMIC for every mutator)')
     ctx.assume('no code outside xtuml/ and bridgepoint/ mutates Link dictionaries directly')
